@@ -92,6 +92,8 @@ func TestWorker(t *testing.T) {
 		}
 		sc.Seed = seed
 		sc.Prop = prop
+		// the scenario that runs is exactly what a replay file would contain (JSON round trip)
+		sc = sc.Clone()
 		if os.Getenv("VERIF_EMIT") != "" {
 			emit(map[string]interface{}{"t": "scenario", "idx": idx, "sc": sc})
 			continue
